@@ -166,7 +166,8 @@ func checkDeterminism(rec *stats.Recorder, c valCase) (msg string, known string)
 }
 
 func TestC09Determinism(t *testing.T) {
-	g := &aval.Gen{S: S, MaxDepth: 4}
+	// (extra keys: code points beyond the BMP next to U+E000..U+FFFF sort differently by bytes and by UTF-16 code units)
+	g := &aval.Gen{S: S, MaxDepth: 4, ExtraKeys: []string{"\U00010000", "\U0001F600", "\ue000", "\uffff", "\uff5ea", "\U00010000z"}}
 	runValueProperty(t, "C09", "determinism", func(rt *rapid.T) valCase {
 		format := formats[pick(rt, len(formats), "format")]
 		ty := drawType(rt, getMapRecords())
@@ -342,7 +343,8 @@ func TestC09KeySets(t *testing.T) {
 // fresh processes: every process has its own map hash seed
 
 func digestOfFixedCases() string {
-	g := &aval.Gen{S: S, MaxDepth: 4}
+	// (extra keys: code points beyond the BMP next to U+E000..U+FFFF sort differently by bytes and by UTF-16 code units)
+	g := &aval.Gen{S: S, MaxDepth: 4, ExtraKeys: []string{"\U00010000", "\U0001F600", "\ue000", "\uffff", "\uff5ea", "\U00010000z"}}
 	h := sha256.New()
 	n := 0
 	for i := 0; i < 400; i++ {
